@@ -323,9 +323,14 @@ Section Stable.
     unfold printValue. destruct depth; destruct value; stab2; try apply stable_print_kind.
   Qed.
 
+  Lemma stable_printArg_inner arg verb : stable (printArg_inner rec env arg verb).
+  Proof.
+    unfold printArg_inner. stab2.
+  Qed.
+
   Lemma stable_printArg_body arg verb : stable (printArg_body rec env arg verb).
   Proof.
-    unfold printArg_body. stab2.
+    unfold printArg_body. stab2. apply stable_printArg_inner.
   Qed.
 
   Lemma stable_printArg arg verb : stable (printArg rec env arg verb).
